@@ -163,6 +163,9 @@ def c19():
             chk.mc("MC_GeneratorIter.tla", "IterSpec",
                    {"Limit": lim, "MaxLen": 8 if chk.tier == "quick" else 11, "IterDesign": '"reset-on-iter"'},
                    ["Inv_C19_PassYieldsExactlyLimit", "Inv_C19_CounterIsPass"], name=f"C19-iter{lim}")
+        # ... and without any bound (every limit, call sequences of any length): TLAPS, 32 obligations
+        chk.tlaps_proof("GeneratorIterProof.tla", timeout=600,
+                        theorem="Safety == IterSpec => [](Inv_C19_PassYieldsExactlyLimit /\\ Inv_C19_CounterIsPass)")
         iter_behs = []
         for lim in (1, 2, 3):
             cfgi = SPEC / f".gen_c19i{lim}.cfg"
